@@ -498,6 +498,31 @@ func c05Protocol(x *runCtx, r *mrand.Rand) {
 					Input: fmt.Sprintf("%s message #%d (%s)", input, target, kinds[target]), Impl: res, PropertyFails: true})
 			}
 		}
+		// a message after ProveDevice sent in the clear: as it is, and at a handler whose length limit is switched off with the
+		// length not announced (chunked transfer). Nothing outside the tunnel may be acted upon: the run fails.
+		for _, unlimited := range []bool{false, true} {
+			injected := false
+			tap3 := &lab.Tap{Request: func(mt uint8, hdr http.Header, body *[]byte) error {
+				if mt == 66 && !injected {
+					injected = true
+					*body = []byte{0x82, 0xf6, 0x19, 0x05, 0x14} // DeviceServiceInfoReady [null, 1300]
+					if unlimited {
+						hdr.Set("X-Lab-Unknown-Length", "1")
+					}
+				}
+				return nil
+			}}
+			if unlimited {
+				w.Handler.MaxContentLength = -1
+			}
+			res := step(func() error { _, err := w.TO2(ctx, d, nil, opts, tap3); return err })
+			w.Handler.MaxContentLength = 0
+			x.r.Case(fmt.Sprintf("proto-clear:%s:%v", input, unlimited), true, "protocol-cleartext")
+			if injected && res != "fail" {
+				x.r.Violate(rep.Violation{Kind: "oracle", Check: "C05.rejected-message-fails-run", Signature: fmt.Sprintf("C05.cleartext-accepted-after-prove-device:unlimited-handler=%v", unlimited),
+					Input: fmt.Sprintf("%s: TO2.DeviceServiceInfoReady 82f6190514 sent in the clear (handler.MaxContentLength=-1 and Content-Length unknown: %v)", input, unlimited), Impl: res, PropertyFails: true})
+			}
+		}
 	}
 }
 
